@@ -3,15 +3,24 @@
 A unit file (verus/units/*.vunit) is a list of sections:
   #unit <name>
   #source <path relative to repo>
+  #include <file>            -- the lines of verus/units/<file> are read in place (text shared between units)
+  #item [<path>::]<stripped first line>  -- a const / struct / enum copied verbatim from the source (from <path> if
+                             -- given, else #source); attribute lines (`#[..]`) inside it are dropped and counted
   #text                      -- verbatim Verus text (struct re-declaration, spec fns, lemmas) until next '#'-directive
   #impl <Type> / #endimpl    -- wraps extracted fns in `impl <Type> { .. }`
   #fn <signature first line, stripped>      -- anchor of the real function in #source
+  #scope <stripped source line>  -- search the #fn anchor only inside the brace block opened on that line (`impl T {`)
   #ret <name>                -- name given to the return value (`-> T` becomes `-> (name: T)`)
   #clauses                   -- requires/ensures/decreases text until next directive
   #hint-before <stripped source line inside the function body>
                              -- ghost text (assert .. by(..)) inserted before that line; text until next directive
+  #subst-re <regex> => <repl>  -- same with a regular expression (used for `String::from_utf8_lossy(X).to_string()`
+                             -- -> `lossy_string(X)`, a trusted wrapper whose body is that very expression)
   #loop-invariant <stripped `while`/`for` line>   -- invariant/decreases clauses inserted between loop head and `{`
   #drop-macro <name> [<name>..]  -- statements `<name>!( .. );` (tracing macros) are removed from the body
+  #subst <old> => <new>      -- every occurrence of the token sequence <old> in the body is redirected to <new>
+                             -- (only for std functions Verus cannot name, e.g. `u32::from_be_bytes(` -> a trusted
+                             -- wrapper declared in the unit with the big-endian spec); each use is reported
   #endfn
 
 What the extraction changes (everything else is byte-for-byte the text of /repo):
@@ -20,6 +29,8 @@ What the extraction changes (everything else is byte-for-byte the text of /repo)
   (3) leading `pub`/`pub(crate)` visibility is kept; attributes above the fn are not copied;
   (4) where a unit says so (#drop-macro), tracing-macro statements (debug!/trace!/warn!) are dropped —
       they have no effect on the function's result or state; each one is listed in the evidence.
+  (5) where a unit says so (#subst), calls of a std function whose signature Verus cannot name are redirected
+      to a wrapper of the same type declared in the unit (trusted; listed in the evidence with the count).
 A missing or ambiguous anchor raises LostAnchor (=> exit 2, never an alarm).
 """
 import hashlib, os, re
@@ -66,10 +77,19 @@ def _scan_to_matching_brace(text, start):
     raise LostAnchor("unbalanced braces")
 
 
-def extract_fn(src_text, anchor):
+def extract_fn(src_text, anchor, scope=None):
     lines = src_text.split("\n")
-    hits = [k for k, l in enumerate(lines) if l.strip() == anchor
-            or re.match(r"(pub(\([a-z]+\))? )?" + re.escape(anchor), l.strip())]
+    lo, hi = 0, len(lines)
+    if scope:
+        # restrict the anchor search to the brace block opened on the (unique) line `scope`, e.g. `impl SrtpSession {`
+        sh = [k for k, l in enumerate(lines) if l.strip() == scope]
+        if len(sh) != 1:
+            raise LostAnchor("scope %r matches %d lines" % (scope, len(sh)))
+        soff = sum(len(l) + 1 for l in lines[: sh[0]])
+        send = _scan_to_matching_brace(src_text, src_text.index("{", soff))
+        lo, hi = sh[0], src_text.count("\n", 0, send) + 1
+    hits = [k for k, l in enumerate(lines) if lo <= k < hi and (l.strip() == anchor
+            or re.match(r"(pub(\([a-z]+\))? )?" + re.escape(anchor), l.strip()))]
     if len(hits) != 1:
         raise LostAnchor("anchor %r matches %d lines" % (anchor, len(hits)))
     off = sum(len(l) + 1 for l in lines[: hits[0]])
@@ -90,12 +110,34 @@ def extract_fn(src_text, anchor):
     return sig, body, (off, end)
 
 
+def extract_item(src_text, anchor):
+    """const / struct / enum starting on the unique line whose stripped text starts with `anchor`."""
+    lines = src_text.split("\n")
+    hits = [k for k, l in enumerate(lines) if l.strip().startswith(anchor)]
+    if len(hits) != 1:
+        raise LostAnchor("item anchor %r matches %d lines" % (anchor, len(hits)))
+    off = sum(len(l) + 1 for l in lines[: hits[0]])
+    i = off
+    while src_text[i] not in "{;":
+        i += 1
+    end = i + 1 if src_text[i] == ";" else _scan_to_matching_brace(src_text, i)
+    body = src_text[off:end].split("\n")
+    kept = [l for l in body if not re.match(r"\s*#\[.*\]\s*$", l)]
+    return "\n".join(kept), (off, end), len(body) - len(kept)
+
+
 def parse_unit(path):
     unit = {"name": None, "source": None, "items": []}
     cur_fn = None
     mode = None  # ('text', list) target to append lines
     buf = None
-    for raw in open(path):
+    def _lines(pth):
+        for raw in open(pth):
+            if raw.startswith("#include "):
+                yield from _lines(os.path.join(os.path.dirname(pth), raw.split(None, 1)[1].strip()))
+            else:
+                yield raw
+    for raw in _lines(path):
         line = raw.rstrip("\n")
         if line.startswith("#") and not line.startswith("#["):
             d, _, arg = line[1:].partition(" ")
@@ -108,6 +150,12 @@ def parse_unit(path):
             elif d == "text":
                 buf = []
                 unit["items"].append(("text", buf))
+            elif d == "item":
+                src, anchor = unit["source"], arg
+                m = re.match(r"(\S+\.rs)::(.*)$", arg)
+                if m:
+                    src, anchor = m.group(1), m.group(2)
+                unit["items"].append(("item", {"anchor": anchor, "source": src}))
             elif d == "impl":
                 unit["items"].append(("impl", arg))
             elif d == "endimpl":
@@ -115,6 +163,8 @@ def parse_unit(path):
             elif d == "fn":
                 cur_fn = {"anchor": arg, "ret": None, "clauses": [], "hints": [], "loops": [], "source": unit["source"]}
                 unit["items"].append(("fn", cur_fn))
+            elif d == "scope":
+                cur_fn["scope"] = arg
             elif d == "ret":
                 cur_fn["ret"] = arg
             elif d == "clauses":
@@ -124,6 +174,12 @@ def parse_unit(path):
                 cur_fn["hints"].append((arg, buf))
             elif d == "drop-macro":
                 cur_fn.setdefault("drop", []).extend(arg.split())
+            elif d == "subst":
+                old, _, new = arg.partition(" => ")
+                cur_fn.setdefault("subst", []).append((old.strip(), new.strip()))
+            elif d == "subst-re":
+                old, _, new = arg.partition(" => ")
+                cur_fn.setdefault("subst_re", []).append((old.strip(), new.strip()))
             elif d == "loop-invariant":
                 buf = []
                 cur_fn["loops"].append((arg, buf))
@@ -147,6 +203,17 @@ def assemble(unit, repo):
     for kind, val in unit["items"]:
         if kind == "text":
             out.extend(val)
+        elif kind == "item":
+            sp = os.path.join(repo, val["source"])
+            if sp not in srcs:
+                if not os.path.exists(sp):
+                    raise LostAnchor("source %s is gone" % val["source"])
+                srcs[sp] = open(sp).read()
+            txt, rng, nattr = extract_item(srcs[sp], val["anchor"])
+            out.append(txt)
+            report.append({"item": val["anchor"], "source": val["source"], "byte_range": list(rng),
+                           "sha256_real_text": hashlib.sha256(srcs[sp][rng[0]:rng[1]].encode()).hexdigest(),
+                           "dropped_attribute_lines": nattr, "lost_ghost_anchors": []})
         elif kind == "impl":
             out.append("impl %s {" % val)
         elif kind == "endimpl":
@@ -157,7 +224,7 @@ def assemble(unit, repo):
                 if not os.path.exists(sp):
                     raise LostAnchor("source %s is gone" % val["source"])
                 srcs[sp] = open(sp).read()
-            sig, body, (a, b) = extract_fn(srcs[sp], val["anchor"])
+            sig, body, (a, b) = extract_fn(srcs[sp], val["anchor"], val.get("scope"))
             real_sha = hashlib.sha256(srcs[sp][a:b].encode()).hexdigest()
             # (1) signature rewrite
             sig_s = sig.rstrip()
@@ -194,6 +261,15 @@ def assemble(unit, repo):
                         j += 1
                     dropped.append(" ".join(body[m.start():j].split()))
                     body = body[:m.start()] + body[j:]
+            substituted = []
+            for old, new in val.get("subst", []):
+                n = body.count(old)
+                if n:
+                    body = body.replace(old, new)
+                substituted.append({"from": old, "to": new, "occurrences": n})
+            for old, new in val.get("subst_re", []):
+                body, n = re.subn(old, new, body)
+                substituted.append({"from_regex": old, "to": new, "occurrences": n})
             # (2) hints and loop invariants
             body_lines = body.split("\n")
             lost = []
@@ -225,6 +301,7 @@ def assemble(unit, repo):
             report.append({"function": val["anchor"], "source": val["source"],
                            "byte_range": [a, b], "sha256_real_text": real_sha,
                            "ghost_hints": len(val["hints"]), "loop_invariants": len(val["loops"]),
-                           "dropped_macro_statements": dropped, "lost_ghost_anchors": lost})
+                           "dropped_macro_statements": dropped, "substitutions": substituted,
+                           "lost_ghost_anchors": lost})
     out += ["", "} // verus!", "fn main() {}", ""]
     return "\n".join(out), report
